@@ -22,6 +22,10 @@ type c09Prog struct {
 	Default  bool     `json:"default"`
 	Context  string   `json:"context"` // fn | ifbranch | letrhs | lambda | inmatch-default | inmatch-case
 	Unit     bool     `json:"unit"`    // arm bodies are statements (print the value) instead of values
+	// what the same fc invocation has seen before the match under test: "" | "complete-first" (an earlier
+	// function matches the same union completely) | "shared-case" (a later union has a case of the same
+	// name as one of this union's cases) | "both"
+	Pre string `json:"pre,omitempty"`
 }
 
 func (p *c09Prog) caseName(i int) string { return fmt.Sprintf("%c%d", 'A'+i, p.Idx) }
@@ -43,6 +47,20 @@ func (p *c09Prog) source(standalone bool) string {
 		}
 	}
 	b.WriteString("\n")
+	if p.Pre == "shared-case" || p.Pre == "both" {
+		fmt.Fprintf(&b, "type V%d =\n  | %s\n  | Z%d\n\n", p.Idx, p.caseName(len(p.Payloads)-1), p.Idx)
+	}
+	if p.Pre == "complete-first" || p.Pre == "both" {
+		fmt.Fprintf(&b, "let h%d (u:U%d) =\n  match u with\n", p.Idx, p.Idx)
+		for i, pl := range p.Payloads {
+			if pl == "n" {
+				fmt.Fprintf(&b, "  | %s -> %d\n", p.caseName(i), i)
+			} else {
+				fmt.Fprintf(&b, "  | %s _ -> %d\n", p.caseName(i), i)
+			}
+		}
+		b.WriteString("\n")
+	}
 	val := func(e string) string {
 		if p.Unit {
 			return "frt.Printf1 \"%d\\n\" (" + e + ")"
@@ -269,6 +287,7 @@ func c09Gen(c *Ctx, rng *Rng) []*c09Prog {
 							p.Forms = append(p.Forms, Choose(rng, []string{"bind", "ignore", "none"}))
 						}
 					}
+					p.Pre = Choose(rng, []string{"", "", "complete-first", "shared-case", "both"})
 					p.Context = contexts[rng.Intn(len(contexts))]
 					if (p.Context == "fn" || strings.HasPrefix(p.Context, "inmatch")) && rng.Chance(1, 3) {
 						p.Unit = true
